@@ -105,10 +105,10 @@ def read_answer(op, kind, idx, keys):
     v = b"v%d" % idx
     cas = b"%d" % (100 + idx)
     if op == "get":
-        return {"miss": None, "hit": v, "hit-empty-bytes": b"", "hit-zero": 0, "hit-False": False,
+        return {"miss": None, "miss-none": None, "hit": v, "hit-empty-bytes": b"", "hit-zero": 0, "hit-False": False,
                 "hit-empty-str": "", "hit-empty-list": []}[kind]
     if op == "gets":
-        return {"miss": (None, None), "hit": (v, cas), "hit-empty-bytes": (b"", cas), "hit-zero": (0, cas),
+        return {"miss": (None, None), "miss-none": None, "hit": (v, cas), "hit-empty-bytes": (b"", cas), "hit-zero": (0, cas),
                 "hit-False": (False, cas), "hit-empty-str": ("", cas), "hit-empty-list": ([], cas)}[kind]
     k1 = keys[0] if keys else "a"
     k2 = keys[1] if len(keys) > 1 else "zz"
@@ -201,7 +201,7 @@ def run_read_scripted(n, kinds, op, form, style):
     except Exception as e:  # noqa
         return [(f"scripted|{op}|raises|{type(e).__name__}", f"{desc} raised {type(e).__name__}: {e}")], \
             ("scripted", op, n, "raises")
-    hit = next((i for i in range(n) if kinds[i] != "miss"), None)
+    hit = next((i for i in range(n) if not kinds[i].startswith("miss")), None)
     h = hit if hit is not None else n - 1
     problems = []
     # which caches were consulted, in which order, with what
@@ -557,6 +557,87 @@ def run_real(states, op, args, is_read):
     return problems, ("client", op, n, "write", states[0], tuple(args[-2:]) if len(args) > 1 else args, "-")
 
 
+
+HWARGS = {"set": ("a", b"v"), "add": ("a", b"v"), "replace": ("a", b"v"), "append": ("a", b"v"),
+          "prepend": ("a", b"v"), "cas": ("a", b"v", b"100"), "delete": ("a",), "incr": ("a", 1),
+          "decr": ("a", 1), "touch": ("a",), "flush_all": ()}
+
+
+def run_history(n, assign, seq):
+    """One history on one FallbackClient over scripted caches.  -> problems"""
+    log = []
+
+    def cache(i, kind):
+        return Scripted(i, {r: read_answer(r, "miss" if kind == "miss" else ("hit" if r in ("get", "gets") else "hit-one"),
+                                           i, ["a", "b"]) for r in READS}, log)
+
+    kinds = dict(enumerate(assign))
+    objs = {i: cache(i, assign[i]) for i in range(n)}
+    fc = FallbackClient([objs[i] for i in range(n)])
+    order = list(range(n))
+    problems = []
+    done = []
+    for ev in seq:
+        ctx = "+".join(done) or "start"
+        desc = f"FallbackClient({n} caches answering {list(assign)}) after [{', '.join(done) or 'nothing'}]: {ev}"
+        mark = len(log)
+        if ev.startswith("retier:"):
+            i = len(objs)
+            kinds[i] = "miss"
+            objs[i] = cache(i, "miss")
+            try:
+                if ev == "retier:insert-front":
+                    fc.caches.insert(0, objs[i])
+                    order.insert(0, i)
+                else:
+                    fc.caches[0] = objs[i]
+                    order[0] = i
+            except (AttributeError, TypeError):
+                return problems  # the list is not editable in place: re-tiering is not offered, nothing to judge
+            done.append(ev)
+            continue
+        single = ev in ("get", "gets")
+        try:
+            if ev in READS:
+                result = getattr(fc, ev)("a" if single else ["a", "b"])
+            else:
+                getattr(fc, ev)(*HWARGS[ev])
+        except Exception as e:  # noqa
+            problems.append((f"history|{ev}|raises|{type(e).__name__}|after={ctx}", f"{desc} raised {type(e).__name__}: {e}"))
+            return problems
+        after = log[mark:]
+        if ev in READS:
+            hit = next((j for j in order if kinds[j] != "miss"), None)
+            exp = order[: order.index(hit) + 1] if hit is not None else list(order)
+            consulted = [e[0] for e in after if e[1] == ev]
+            foreign = [e for e in after if e[1] != ev]
+            if foreign:
+                problems.append((f"history|{ev}|read-calls-other-method|{foreign[0][1]}|after={ctx}",
+                                 f"{desc} called {foreign[0][1]} on cache {foreign[0][0]}"))
+            elif consulted != exp:
+                problems.append((f"history|{ev}|wrong-consultation|after={ctx}",
+                                 f"{desc} consulted caches {consulted}; the list is {order} with first hit at "
+                                 f"{hit}, so {exp} had to be asked, in that order"))
+            elif hit is not None:
+                want = read_answer(ev, "hit" if single else "hit-one", hit, ["a", "b"])
+                if not (type(result) is type(want) and result == want):
+                    problems.append((f"history|{ev}|wrong-result|after={ctx}",
+                                     f"{desc} returned {short(result)}; first hit is cache {hit}'s {short(want)}"))
+            elif not is_miss_like(ev, result):
+                problems.append((f"history|{ev}|result-not-a-miss|after={ctx}", f"{desc} returned {short(result)} although every cache missed"))
+        else:
+            touched = sorted({e[0] for e in after})
+            if any(j != order[0] for j in touched):
+                problems.append((f"history|{ev}|fallback-cache-touched|after={ctx}",
+                                 f"{desc}{HWARGS[ev]!r} reached caches {touched}; the first cache of the list is "
+                                 f"{order[0]} and writes must go to it only"))
+            elif not any(e[0] == order[0] and e[1] == ev for e in after):
+                problems.append((f"history|{ev}|primary-not-written|after={ctx}", f"{desc}: cache {order[0]} saw {after}"))
+        if problems:
+            return problems
+        done.append(ev)
+    return problems
+
 # ---------------------------------------------------------------------------
 # enumeration
 
@@ -592,6 +673,9 @@ def _worker(job, chk):
         kinds = single_kinds(tier) if single else MANY_KINDS
         if n == 5:
             kinds = kinds[:4]
+        if op == "gets":
+            # a cache may report a gets miss as None too (a nested FallbackClient does)
+            kinds = kinds + ["miss-none"]
         forms = KEY_FORMS if single else KEYS_FORMS
         first = True
         for assign in itertools.product(kinds, repeat=n):
@@ -624,40 +708,21 @@ def _worker(job, chk):
                 _record(chk, problems, key, {"mode": mode, "states": list(states), "op": wop, "windex": wi,
                                              "read": False})
     elif mode == "history":
-        # one long-lived FallbackClient: every read (under every hit/miss assignment) followed by every
-        # mutator; the write must still reach cache 0 only, whatever the earlier read found and where
-        WARGS = {"set": ("a", b"v"), "add": ("a", b"v"), "replace": ("a", b"v"), "append": ("a", b"v"),
-                 "prepend": ("a", b"v"), "cas": ("a", b"v", b"100"), "delete": ("a",), "incr": ("a", 1),
-                 "decr": ("a", 1), "touch": ("a",), "flush_all": ()}
-        for rop in READS:
-            single = rop in ("get", "gets")
-            kinds = ["hit", "miss"] if single else ["hit-one", "miss"]
-            for assign in itertools.product(kinds, repeat=n):
-                for wop in MUTATORS:
-                    log = []
-                    caches = [Scripted(i, {r: read_answer(r, "miss" if assign[i] == "miss" else
-                                                         ("hit" if r in ("get", "gets") else "hit-one"), i, ["a", "b"])
-                                           for r in READS}, log) for i in range(n)]
-                    fc = FallbackClient(caches)
-                    getattr(fc, rop)("a" if single else ["a", "b"])
-                    mark = len(log)
-                    try:
-                        getattr(fc, wop)(*WARGS[wop])
-                        problems = []
-                    except Exception as e:  # noqa
-                        problems = [(f"history|{wop}|raises-after-{rop}|{type(e).__name__}",
-                                     f"{wop} after {rop} raised {type(e).__name__}: {e}")]
-                    after = log[mark:]
-                    touched = sorted({e[0] for e in after})
-                    if any(i != 0 for i in touched):
-                        problems.append((f"history|{wop}|fallback-cache-touched-after-{rop}",
-                                         f"FallbackClient({n} caches answering {list(assign)}): {rop} then {wop}{WARGS[wop]!r} "
-                                         f"reached caches {touched}; writes must go to cache 0 only"))
-                    elif not any(e[0] == 0 and e[1] == wop for e in after):
-                        problems.append((f"history|{wop}|primary-not-written-after-{rop}",
-                                         f"FallbackClient({n} caches answering {list(assign)}): {rop} then {wop}: cache 0 saw {after}"))
-                    _record(chk, problems, ("history", n, rop, wop, assign), {"mode": mode, "n": n, "rop": rop, "wop": wop,
-                                                                             "kinds": list(assign)})
+        # one long-lived FallbackClient: every sequence of events (reads, mutators, and re-tiering through the
+        # public `caches` list) of the given length under every hit/miss assignment; after every event the
+        # read rule / write rule is judged against the list as it is at that moment
+        if tier == "quick":
+            length = 3 if n <= 3 else 2
+        else:
+            length = 4 if n <= 2 else 3
+        events = list(READS) + list(MUTATORS) + ["retier:insert-front", "retier:replace-first"]
+        for assign in itertools.product(("hit", "miss"), repeat=n):
+            for seq in itertools.product(events, repeat=length):
+                if not any(e in READS or e in MUTATORS for e in seq[1:]):
+                    continue
+                problems = run_history(n, assign, seq)
+                _record(chk, problems, ("history", n, seq, assign), {"mode": mode, "n": n, "seq": list(seq),
+                                                                       "kinds": list(assign)})
     elif mode == "surface":
         public = sorted(x for x in dir(FallbackClient) if not x.startswith("_") and callable(getattr(FallbackClient, x)))
         known = set(READS) | set(MUTATORS) | set(OTHER)
@@ -704,10 +769,7 @@ def replay(detail):
             wop, args = REAL_WRITES[detail["windex"]]
             problems, _ = run_real(tuple(detail["states"]), wop, args, False)
     elif mode == "history":
-        tmp = runner.Check(PROPERTY, LEVEL, "quick", 0)
-        _worker(("history", detail["n"], None, "quick"), tmp)
-        problems = [(s, v["what"]) for s, v in tmp.violations.items()
-                    if f"|{detail['wop']}|" in s and s.endswith(detail["rop"])]
+        problems = run_history(detail["n"], tuple(detail["kinds"]), tuple(detail["seq"]))
     else:
         problems = [(None, f"FallbackClient has no method {n}") for n in list(READS) + list(MUTATORS)
                     if not hasattr(FallbackClient, n)]
